@@ -275,8 +275,8 @@ CFG = {
         },
         "C14": {
             "level": "other",
-            "explanation": "CBOR integer kernel, reader side: the arithmetic the real parse applies to the two integer major types (n -> n, n -> -1 - n via `neg as i128 ^ !0`) is proved exact for every 64-bit argument (machine or big integer result), one harness per header variant. Loop-free; complete for that function and domain. The writer side (encode of a machine integer through ciborium-ll) did not finish in CBMC (5 attempts: symbolic execution walks every arm of the recursive encode) and is not claimed. CSV / TSV, reader side: the real field readers invert the formats' quoting / escaping for every field content of length <= 2 over the metacharacter alphabet (bounded, enumerated), and the real CSV row reader is run on five texts of empty / quoted-empty cells (points: the quoted-empty last row that `[\"\"] | tocsv` writes is a row, null and the empty string stay apart).",
-            "not_decided": "CBOR encode (writer side) and therefore the round trip itself; YAML (document structure, tags, anchors, plain-scalar quoting: must_quote + resolver on symbolic strings did not finish in 50 min), TOML keys and tables (toml-span), XML (xmlparser), the CSV / TSV writers (aho-corasick) and cells that reach the number parser, CBOR strings, floats, containers, big integers (num-bigint), --from / --to, well-formedness for independent readers",
+            "explanation": "CBOR integer kernel, reader side: the arithmetic the real parse applies to the two integer major types (n -> n, n -> -1 - n via `neg as i128 ^ !0`) is proved exact for every 64-bit argument (machine or big integer result), one harness per header variant. Loop-free; complete for that function and domain. The writer side (encode of a machine integer through ciborium-ll) did not finish in CBMC (5 attempts: symbolic execution walks every arm of the recursive encode) and is not claimed. CSV / TSV, reader side: the real field readers invert the formats' quoting / escaping for every field content of length <= 2 over the metacharacter alphabet (bounded, enumerated), and the real CSV row reader is run on five texts of empty / quoted-empty cells (points: the quoted-empty last row that `[\"\"] | tocsv` writes is a row, null and the empty string stay apart). YAML: needs_quote(s) ==> must_quote(s) at literal points, with needs_quote written from the YAML 1.2.2 core schema (what a reader resolves to null / bool / int / float), the document markers and the plain-scalar rules (edge blanks, blank-#, colon-blank, line breaks, leading indicators). TOML: the key the real Display for Key writes is a non-empty bare run or a quoted string, at three literal keys.",
+            "not_decided": "CBOR encode (writer side) and therefore the round trip itself; YAML (document structure, tags, anchors; plain-scalar quoting beyond the listed literals: must_quote + resolver on symbolic strings did not finish in 50 min), TOML tables and keys beyond three literals (toml-span), XML (xmlparser), the CSV / TSV writers (aho-corasick) and cells that reach the number parser, CBOR strings, floats, containers, big integers (num-bigint), --from / --to, well-formedness for independent readers",
             "assumptions": ["ciborium-ll's Header values are taken as given (the decoder that produces them is not verified)"],
         },
         "C05": {
